@@ -147,14 +147,14 @@ Definition box_eq (a b : box) : Prop := bx0 a == bx0 b /\ by0 a == by0 b /\ bx1 
    GK_ClipWrap   use_node::clip_element(node, rect, passed) + `g.abs_transform = parent.abs_transform`:
                  ts = passed, abs = P *)
 Inductive gkind := GK_Plain | GK_ViaUse | GK_ClipWrap.
-(* TLeafSimple: a path made with Path::new_simple (abs_transform = identity), e.g. the root background rectangle *)
-Inductive tnode := TLeaf | TLeafSimple | TGroup (k : gkind) (node_ts passed_ts : ts) (ch : list tnode).
+(* every leaf of the main tree gets the abs_transform of its parent group (convert_path, image, text; the root
+   background rectangle since 5431e4e; Path::new_simple is only used for clip rectangles inside ClipPath roots) *)
+Inductive tnode := TLeaf | TGroup (k : gkind) (node_ts passed_ts : ts) (ch : list tnode).
 Inductive anode := ALeaf (abs : ts) | AGroup (t abs : ts) (ch : list anode).
 
 Fixpoint thread (pabs : ts) (n : tnode) : anode :=
   match n with
   | TLeaf => ALeaf pabs
-  | TLeafSimple => ALeaf ts_identity
   | TGroup k nts pts ch =>
       let '(t, a) := match k with
                      | GK_Plain => (nts, ts_concat pabs nts)
@@ -178,21 +178,12 @@ Fixpoint product_ok (pabs : ts) (n : anode) : bool :=
 Fixpoint has_use_ts (n : tnode) : bool :=
   match n with
   | TLeaf => false
-  | TLeafSimple => false
   | TGroup k nts pts ch =>
       match k with
       | GK_Plain => false
       | GK_ViaUse => negb (ts_eqb nts ts_identity)
       | GK_ClipWrap => negb (ts_eqb pts ts_identity)
       end || existsb has_use_ts ch
-  end.
-
-(* KNOWN class background_path_abs: a Path::new_simple leaf below a group *)
-Fixpoint has_simple_leaf (n : tnode) : bool :=
-  match n with
-  | TLeaf => false
-  | TLeafSimple => true
-  | TGroup _ _ _ ch => existsb has_simple_leaf ch
   end.
 
 (* Path::new, branch with skew: the path is transformed first and then stroked with the stroke's own width.
